@@ -4,7 +4,7 @@ import time
 
 from . import core
 
-ELEMS = {"NTRNCC": "vf::NTR_NCC", "TRNCA": "vf::TR_NCA", "NTRNCA": "vf::NTR_NCA", "TRNCC": "vf::TR_NCC", "TC16A": "vf::TC16A", "K1": "vf::K1", "K2": "vf::K2", "int": "int", "double": "double", "NTRTM": "vf::NTR_TM", "TC1": "vf::TC1", "TC4": "vf::TC4", "TC8": "vf::TC8", "TC12": "vf::TC12", "TR": "vf::TR", "NTR": "vf::NTR"}
+ELEMS = {"TRBIG": "vf::TR_BIG", "NTRBIG": "vf::NTR_BIG", "NTRNCC": "vf::NTR_NCC", "TRNCA": "vf::TR_NCA", "NTRNCA": "vf::NTR_NCA", "TRNCC": "vf::TR_NCC", "TC16A": "vf::TC16A", "K1": "vf::K1", "K2": "vf::K2", "int": "int", "double": "double", "NTRTM": "vf::NTR_TM", "TC1": "vf::TC1", "TC4": "vf::TC4", "TC8": "vf::TC8", "TC12": "vf::TC12", "TR": "vf::TR", "NTR": "vf::NTR"}
 
 
 def alloc_expr(kind, elem):
@@ -109,6 +109,9 @@ QUICK = [
     # element whose move operations are not noexcept (the noexcept(false) variants of every helper), partner with a narrower size_type
     VCfg("v", 0, "NTRTM", "basic", "uint32_t", "s8_4"),
     VCfg("s", 4, "NTRTM", "basic", "uint32_t", "v"),  # .. with inline storage: the inline-storage promise does not depend on the nothrow-ness of the moves
+    # elements larger than a cache line (96 bytes): thresholds on sizeof(T)
+    VCfg("s", 3, "NTRBIG", "basic", "uint8_t", "v"),
+    VCfg("v", 0, "TRBIG", "realloc", "uint32_t", "s3"),
     # large inline capacities: the large-scale histories swap / move / shift thousands of elements held inside the object
     VCfg("f", 1500, "TC4", "none", "uint16_t", "s3"),
     VCfg("s", 400, "TR", "basic", "uint32_t", "v"),
@@ -511,6 +514,7 @@ SWAP2_QUICK = [
     # same width, other signedness; a fixed capacity beyond an 8-bit size_type
     PairCfg("TR", V8, "v:basic:int8_t"), PairCfg("TC4", "f300", V8), PairCfg("NTR", "s4:basic:int8_t", S4U8),
     PairCfg("NTR", "fu8", F3), PairCfg("TR", "fu4", S4),  # operands with different growing policies
+    PairCfg("TRBIG", V32, V8), PairCfg("NTRBIG", S4, S4U8),  # elements larger than a cache line (96 bytes)
 ]
 SWAP2_THOROUGH = [
     PairCfg("TR", V32, S4), PairCfg("NTR", V32, V8), PairCfg("TR", S2, S4), PairCfg("NTR", S4, S4U8), PairCfg("TR", S4, S3X), PairCfg("NTR", S4, F3),
